@@ -16,6 +16,8 @@ oracle: the same statement evaluated without the model (own flattening; single-e
 Beyond convert(): every kernel called directly with binned operands, and transform_coords with the gravity kernels
 in the graph (keys C06:input-modified:<kernel>, C06:event-value-differs-from-dense:<kernel>,
 C06:second-call-differs:<kernel>, C06:event-vs-dense-exception:<kernel>, C06:bin-sizes-changed:<kernel>).
+Event unit and dtype are independent generator dimensions; elastic results are also compared with the documented
+formula in exact decimal arithmetic (key C06:event-value-differs-from-formula:<target or kernel>).
 """
 from __future__ import annotations
 
@@ -42,7 +44,14 @@ RULE = (
     'make internal conversions no-ops, e.g. wavelength in m, float64/float32/int64; per-pixel dense operands), and '
     '(graph) transform_coords with beamline(scatter=True) + elastic(wavelength) + the gravity kernels in the graph; for '
     'both: per-event result bit for bit vs the dense kernel on the flattened events (own flattening and the pairs the '
-    'Lean model predicts), bit-level snapshot of all operands before/after, and a second call on the same input.'
+    'Lean model predicts), bit-level snapshot of all operands before/after, and a second call on the same input. '
+    'Event-coordinate UNIT and DTYPE are independent dimensions everywhere: tof in ps/ns/us/ms/s x float64/float32/int64/'
+    'int32 (integer values kept inside the dtype; no integer seconds), wavelength in m/angstrom/nm/pm, energy in meV/J/eV/'
+    'ueV, Q in 1/angstrom,1/m,1/nm, scalar geometry in m/mm/angstrom x float64/float32, two_theta in rad/deg, bin edges '
+    'optionally in another time unit than the events. Besides the real dense kernel (which shares the code under test) every '
+    'elastic result (convert targets wavelength/energy/dspacing/Q and the nine elastic kernels) is compared with the '
+    'documented formula evaluated in 60-digit decimal arithmetic on the exact event values (harness/tofkernels.py), '
+    'tolerance by result dtype: float64 1e-11, float32 1e-5 (Q through two kernels: twice that).'
 )
 ASSUMPTIONS = [
     "scipp's C++ engine applies the scalar operation of a kernel to every event with the bin's dense operand "
@@ -118,9 +127,20 @@ def make_case(seed, idx):
             begin[b] = pos
             pos += sizes[b]
         nbuf = int(sizes.sum())
-    ev_dtype = str(rng.choice(['float64', 'float32', 'int64', 'int32'], p=[0.4, 0.3, 0.2, 0.1]))
+    ev_dtype = str(rng.choice(['float64', 'float32', 'int64', 'int32'], p=[0.35, 0.25, 0.25, 0.15]))
     w_dtype = str(rng.choice(['float32', 'float64']))
-    tof = rng.uniform(3000.0, 25000.0, nbuf)
+    # event-coordinate UNIT is a dimension independent of the dtype (raw event_time_offset is integer ns / ps)
+    urng = np.random.default_rng([seed, idx, 808])
+    tof_unit = str(urng.choice(['ps', 'ns', 'us', 'ms', 's'], p=[0.2, 0.25, 0.3, 0.15, 0.1]))
+    if ev_dtype.startswith('int') and tof_unit == 's':
+        tof_unit = 'ms'      # integer seconds would all be 0
+    lo_us, hi_us = (100.0, 2000.0) if (ev_dtype == 'int32' and tof_unit == 'ps') else (3000.0, 25000.0)
+    tof_scale = {'ps': 1e6, 'ns': 1e3, 'us': 1.0, 'ms': 1e-3, 's': 1e-6}[tof_unit]
+    tof = rng.uniform(lo_us, hi_us, nbuf) * tof_scale
+    len_unit = str(urng.choice(['m', 'mm', 'angstrom'], p=[0.5, 0.35, 0.15]))
+    len_scale = {'m': 1.0, 'mm': 1e3, 'angstrom': 1e10}[len_unit]
+    geo_dtype = str(urng.choice(['float64', 'float32'], p=[0.65, 0.35]))
+    edges_unit = tof_unit if urng.random() < 0.8 else str(urng.choice(['us', 'ms', 'ns']))
     geom_kind = str(rng.choice(['positions', 'L1L2theta', 'Ltotal-theta']))
     case = {
         'seed': int(seed), 'idx': int(idx), 'grid': str(grid), 'npix': npix, 'ntof': ntof, 'style': str(style),
@@ -131,7 +151,9 @@ def make_case(seed, idx):
         'pulse_time': rng.integers(0, 1000, nbuf),
         'event_mask': (rng.random(nbuf) < 0.3) if rng.random() < 0.5 else None,
         'edges': bool(rng.random() < 0.6) and grid != 'pixel',
-        'tof_edges': np.linspace(3000.0, 25000.0, ntof + 1) + np.sort(rng.uniform(0, 50, ntof + 1)),
+        'tof_edges': (np.linspace(lo_us, hi_us, ntof + 1) + np.sort(rng.uniform(0, 50, ntof + 1)))
+        * {'ps': 1e6, 'ns': 1e3, 'us': 1.0, 'ms': 1e-3, 's': 1e-6}[edges_unit],
+        'tof_unit': tof_unit, 'edges_unit': edges_unit, 'len_unit': len_unit, 'len_scale': len_scale, 'geo_dtype': geo_dtype,
         'geom_kind': geom_kind,
         'position': rng.normal(size=(npix, 3)) * 2.0 + np.array([0.2, -0.1, 4.0]),
         'source_position': rng.normal(size=3) + np.array([0.0, 0.1, -15.0]),
@@ -163,7 +185,7 @@ def build(case, mode=None):
     if case['variances']:
         data.variances = case['vars']
     table = sc.DataArray(data, coords={
-        'tof': sc.array(dims=['event'], values=case['tof'], unit='us'),
+        'tof': sc.array(dims=['event'], values=case['tof'], unit=case['tof_unit']),
         'pulse_time': sc.array(dims=['event'], values=case['pulse_time'], unit='ms'),
     })
     if case['event_mask'] is not None:
@@ -182,7 +204,7 @@ def build(case, mode=None):
     for n, v in geometry_coords(case, mode).items():
         da.coords[n] = v
     if case['edges']:
-        da.coords['tof'] = sc.array(dims=['tof'], values=case['tof_edges'], unit='us')
+        da.coords['tof'] = sc.array(dims=['tof'], values=case['tof_edges'], unit=case['edges_unit'])
     if grid != 'tof':
         da.coords['detid'] = sc.array(dims=['spectrum'], values=case['detid'], unit=None)
         da.masks['pm'] = sc.array(dims=['spectrum'], values=case['pixel_mask'])
@@ -222,17 +244,18 @@ def geometry_coords(case, mode, dim='spectrum', index=None):
 
     out = {}
     k = case['geom_kind']
+    lu, ls, gd = case['len_unit'], case['len_scale'], case['geo_dtype']   # geometry unit and dtype are dimensions too
     if k == 'positions':
-        out['position'] = per_pixel(case['position'], 'm', vec=True)
-        out['source_position'] = sc.vector(value=case['source_position'], unit='m')
-        out['sample_position'] = sc.vector(value=case['sample_position'], unit='m')
+        out['position'] = per_pixel(case['position'] * ls, lu, vec=True)
+        out['source_position'] = sc.vector(value=case['source_position'] * ls, unit=lu)
+        out['sample_position'] = sc.vector(value=case['sample_position'] * ls, unit=lu)
     elif k == 'L1L2theta':
-        out['L1'] = sc.scalar(case['L1'], unit='m')
-        out['L2'] = per_pixel(case['L2'], 'm')
-        out['two_theta'] = per_pixel(case['two_theta'], 'rad')
+        out['L1'] = sc.scalar(case['L1'] * ls, unit=lu).astype(gd)
+        out['L2'] = per_pixel(case['L2'] * ls, lu).astype(gd)
+        out['two_theta'] = per_pixel(case['two_theta'], 'rad').astype(gd)
     else:
-        out['Ltotal'] = per_pixel(case['Ltotal'], 'm')
-        out['two_theta'] = per_pixel(case['two_theta'], 'rad')
+        out['Ltotal'] = per_pixel(case['Ltotal'] * ls, lu).astype(gd)
+        out['two_theta'] = per_pixel(case['two_theta'], 'rad').astype(gd)
     if mode == 'direct':
         out['incident_energy'] = sc.scalar(case['incident_energy'], unit='meV')
     elif mode == 'indirect':
@@ -302,14 +325,14 @@ def snapshot(da):
     return snap
 
 
-def dense_events(case, mode, tof_vals, pixels):
+def dense_events(case, mode, tof_vals, pixels, unit=None):
     """a dense DataArray over dim 'event': the given event coordinate values with the geometry of the given pixels"""
     import numpy as np
     import scipp as sc
 
     n = len(tof_vals)
     dd = sc.DataArray(sc.array(dims=['event'], values=np.ones(n)))
-    dd.coords['tof'] = sc.array(dims=['event'], values=np.asarray(tof_vals), unit='us')
+    dd.coords['tof'] = sc.array(dims=['event'], values=np.asarray(tof_vals), unit=unit or case['tof_unit'])
     for name, v in geometry_coords(case, mode, dim='event', index=np.asarray(pixels, dtype=np.int64)).items():
         dd.coords[name] = v
     return dd
@@ -418,7 +441,7 @@ def run_case(case, layout_line, edges_line, kinds=None):
             flat = [e for r in rows for e in r]
             e_tof = case['tof_edges'][[c for c, _ in flat]]
             e_pix = pix[[g for _, g in flat]]
-            eres, eerr = run_both(dense_events(case, mode, e_tof, e_pix), target, scatter)
+            eres, eerr = run_both(dense_events(case, mode, e_tof, e_pix, unit=case['edges_unit']), target, scatter)
             if target not in res.coords:
                 rec['dis'].append(('edge coordinate missing',))
             elif eres is None:
@@ -436,8 +459,8 @@ def run_case(case, layout_line, edges_line, kinds=None):
         # --- numeric model instance (wavelength): needs Ltotal per bin
         if target == 'wavelength' and 'Ltotal' in res.coords and case['grid'] != 'tof' and len(order):
             L = res.coords['Ltotal']
-            if L.dims == ('spectrum',) and str(L.unit) == 'm' and str(L.dtype) == 'float64':
-                cc = float(sc.to_unit(const.h / const.m_n, sc.units.angstrom * sc.Unit('m') / sc.Unit('us')).value)
+            if L.dims == ('spectrum',) and str(L.dtype) == 'float64':
+                cc = float(sc.to_unit(const.h / const.m_n, sc.units.angstrom * L.unit / sc.Unit(case['tof_unit'])).value)
                 Lbin = np.asarray(L.values)[np.searchsorted(pix, pixel_of_bin)]
                 tv = in_tof[order]
                 if case['ev_dtype'] == 'float64':
@@ -455,7 +478,7 @@ def run_case(case, layout_line, edges_line, kinds=None):
         if target == 'energy_transfer' and case['grid'] != 'tof' and len(order) and 'L1' in res.coords and 'L2' in res.coords:
             l1, l2 = res.coords['L1'], res.coords['L2']
             en = res.coords['incident_energy' if mode == 'direct' else 'final_energy']
-            if (all(str(x.dtype) == 'float64' for x in (l1, l2, en)) and str(l1.unit) == 'm' and str(l2.unit) == 'm'
+            if (all(str(x.dtype) == 'float64' for x in (l1, l2, en)) and l1.unit == l2.unit
                     and str(en.unit) == 'meV' and str(got.dtype) == 'float64'):
                 npx = len(pix)
 
@@ -464,7 +487,7 @@ def run_case(case, layout_line, edges_line, kinds=None):
                     a = np.broadcast_to(a, (npx,)) if a.ndim == 0 else a
                     return a[np.searchsorted(pix, pixel_of_bin)]
 
-                cc = float(sc.to_unit(const.m_n / 2, sc.Unit('meV') * (sc.Unit('us') / sc.Unit('m')) ** 2).value)
+                cc = float(sc.to_unit(const.m_n / 2, sc.Unit('meV') * (sc.Unit(case['tof_unit']) / l1.unit) ** 2).value)
                 tv = in_tof[order].astype(np.float64)
                 line = ' '.join([
                     'c06.etd' if mode == 'direct' else 'c06.eti', bits64(cc), ','.join(str(int(x)) for x in sizes_f),
@@ -521,6 +544,26 @@ def oracle_checks(case, mode, target, scatter, da, res, snap, rec):
                      f'(dtype {gv.dtype}/{xv.dtype})'))
     if str(rdata.coords[target].unit) != str(dres.coords[target].unit):
         viol.append(('C06:event-unit-differs-from-dense', f'{rdata.coords[target].unit} vs {dres.coords[target].unit}'))
+    # the documented formula in exact arithmetic on the event values (the dense conversion shares the kernels' code)
+    fk = FORMULA_OF_TARGET.get(target) or ('wavelength_from_tof' if target == 'Q' else None)
+    if fk and 'Ltotal' in res.coords and (fk == 'wavelength_from_tof' and target != 'Q' or fk == 'energy_from_tof'
+                                          or 'two_theta' in res.coords):
+        loc = np.searchsorted(pix, ev_pix)
+
+        def per_event(v):
+            a = np.asarray(v.values)
+            return np.broadcast_to(a, (len(pix),))[loc] if a.ndim <= 1 else None
+
+        ops = {'tof': (in_tof, case['tof_unit']), 'Ltotal': (per_event(res.coords['Ltotal']), res.coords['Ltotal'].unit)}
+        if fk == 'dspacing_from_tof' or target == 'Q':
+            ops['two_theta'] = (per_event(res.coords['two_theta']), res.coords['two_theta'].unit)
+        if all(v is not None for v, _ in ops.values()):
+            err, k, tol, note = formula_error(fk, ops, gv, str(gv.dtype), rdata.coords[target].unit, then_q=(target == 'Q'))
+            if not err <= tol:
+                viol.append((f'C06:event-value-differs-from-formula:{target}',
+                             f'event {k}: tof {in_tof[k] if k >= 0 else ""} {case["tof_unit"]} ({case["ev_dtype"]}) -> {target} = '
+                             f'{gv[k] if k >= 0 else ""}: relative error {err:.3e} against the documented formula in exact '
+                             f'arithmetic (tolerance {tol:g} for a {gv.dtype} result) {note}'))
     # single-event dense conversions for up to 3 events
     n = len(in_tof)
     for k in ([0, n // 2, n - 1] if n else []):
@@ -563,16 +606,79 @@ def oracle_checks(case, mode, target, scatter, da, res, snap, rec):
 
 
 
+
+# ---- the documented formula in exact arithmetic (independent of the kernels, event AND dense) -------------------
+
+FORMULA_OF_TARGET = {   # convert(tof -> target): the single kernel that produces the event coordinate
+    'wavelength': 'wavelength_from_tof', 'energy': 'energy_from_tof', 'dspacing': 'dspacing_from_tof',
+}
+
+
+_UNIT_KEYS: dict = {}
+
+
+def _unit_key(u) -> str:
+    """name of a scipp unit in the exact scale table of harness/tofkernels.py ('Å' -> 'angstrom', 'µs' -> 'us', …)"""
+    from .. import tofkernels as tk
+
+    name = str(u)
+    if name not in _UNIT_KEYS:
+        _UNIT_KEYS[name] = next((k for k in tk.SCALE if k == name or tk.unit_is(u, k)), name)
+    return _UNIT_KEYS[name]
+
+
+def formula_error(kname, operands, got_vals, got_dtype, got_unit, max_events=40, then_q=False):
+    """max relative error of event results against the documented formula evaluated in 60-digit decimal arithmetic
+    on the exact values of the operands (harness/tofkernels.py: exact SI scales, decimal sine).
+    operands = {argument: (values per event (numpy), unit)}; returns (error, event index, tolerance, note)."""
+    import numpy as np
+
+    from .. import tofkernels as tk
+
+    K = tk.KERNELS[kname]
+    operands = {a: (v, _unit_key(u)) for a, (v, u) in operands.items()}
+    units = {a: u for a, (_, u) in operands.items()}
+    doc_unit = K.out_unit(units) if not then_q else '1/angstrom'
+    if not tk.unit_is(got_unit, doc_unit):
+        return float('inf'), -1, 0.0, f'unit {got_unit} instead of {doc_unit}'
+    n = len(got_vals)
+    if n == 0:
+        return 0.0, -1, 0.0, ''
+    idxs = range(n) if n <= max_events else sorted(set(np.linspace(0, n - 1, max_events).astype(int).tolist()))
+    h, mn = (tk.exact(x) for x in tk.constants())
+    oscale = (1 / tk.SCALE[doc_unit[2:]]) if doc_unit.startswith('1/') else tk.SCALE[doc_unit]
+    tol = tk.TOL[tk.result_class(got_dtype)] * (2 if then_q else 1)
+    worst, wk = 0.0, -1
+    cache = {}
+    for k in idxs:
+        phys = {}
+        for a, (vals, u) in operands.items():
+            x = vals[k] if np.ndim(vals) else vals
+            key = (a, x.item() if hasattr(x, 'item') else x)
+            if key not in cache:
+                cache[key] = tk.exact(x) * tk.SCALE[u]
+            phys[a] = cache[key]
+        want = K.ref(h, mn, phys)
+        if then_q:   # Q = 4 pi sin(theta) / lambda with lambda from tof (two kernels: twice the tolerance)
+            want = tk.KERNELS['Q_from_wavelength'].ref(h, mn, {'wavelength': want, 'two_theta': phys['two_theta']})
+        e = tk.rel_err(float(got_vals[k]), want / oscale)
+        if e > worst:
+            worst, wk = e, k
+    return worst, wk, tol, ''
+
+
 # ---- binned operands passed directly to the kernels; transform_coords with the gravity kernels ----------------
 
 EVENT_UNITS = {
-    # (base unit, lo, hi), candidate units with weights; the first candidates are those for which a unit conversion
-    # inside some kernel is a no-op (wavelength in m for the gravity kernels, …)
-    'tof': ('us', 3000.0, 25000.0, ['us', 'ms', 's', 'ns'], [0.4, 0.2, 0.2, 0.2]),
-    'wavelength': ('angstrom', 0.5, 10.0, ['m', 'angstrom', 'nm'], [0.45, 0.35, 0.2]),
-    'energy': ('meV', 1.0, 100.0, ['meV', 'J', 'eV'], [0.5, 0.25, 0.25]),
+    # quantity: (base unit, lo, hi in the base unit, candidate units, weights); the first candidates are those for
+    # which a unit conversion inside some kernel is a no-op (wavelength in m for the gravity kernels, …).
+    # UNIT and DTYPE are independent dimensions (integer tof in ns / ps is what raw event_time_offset looks like).
+    'tof': ('us', 3000.0, 25000.0, ['us', 'ns', 'ps', 'ms', 's'], [0.3, 0.25, 0.2, 0.15, 0.1]),
+    'wavelength': ('angstrom', 0.5, 10.0, ['m', 'angstrom', 'nm', 'pm'], [0.35, 0.35, 0.15, 0.15]),
+    'energy': ('meV', 1.0, 100.0, ['meV', 'J', 'eV', 'ueV'], [0.4, 0.2, 0.2, 0.2]),
     'Q': ('1/angstrom', 0.5, 10.0, ['1/angstrom', '1/m', '1/nm'], [0.5, 0.25, 0.25]),
 }
+EVENT_DTYPES = (['float64', 'float32', 'int64', 'int32'], [0.4, 0.3, 0.2, 0.1])
 
 
 def kernel_setup(case):
@@ -585,14 +691,17 @@ def kernel_setup(case):
     ev = {}
     for name, (base, lo, hi, units, w) in EVENT_UNITS.items():
         unit = str(rng.choice(units, p=w))
-        dtype = str(rng.choice(['float64', 'float32'], p=[0.55, 0.45]))
-        if name == 'tof' and unit in ('us', 'ns') and rng.random() < 0.2:
-            dtype = 'int64'
+        dtype = str(rng.choice(EVENT_DTYPES[0], p=EVENT_DTYPES[1]))
         scale = float(sc.to_unit(sc.scalar(1.0, unit=base), unit).value)
+        if dtype.startswith('int') and hi * scale < 100:      # integers need values well above 1 in this unit
+            dtype = 'float64'
+        if dtype == 'int32' and hi * scale > 2e9:             # … and must fit
+            lo, hi = lo * 1.5e9 / (hi * scale), 1.5e9 / scale
         vals = (rng.uniform(lo, hi, nbuf) * scale).astype(dtype)
         ev[name] = (vals, unit, dtype)
     # wavelength in angstrom for time_at_sample (no unit conversion inside that kernel)
-    ev['wavelength_A'] = (rng.uniform(0.5, 10.0, nbuf).astype(ev['tof'][2] if ev['tof'][2] != 'int64' else 'float64'), 'angstrom', 'x')
+    ev['wavelength_A'] = (rng.uniform(0.5, 10.0, nbuf).astype(ev['tof'][2] if ev['tof'][2].startswith('float') else 'float64'),
+                          'angstrom', 'x')
     npix = case['npix']
     orth = bool(rng.random() < 0.5)
     L = float(rng.uniform(5.0, 30.0))
@@ -605,6 +714,10 @@ def kernel_setup(case):
         'gravity': np.array([0.0, -9.80665, 0.0]),
         'scattered_beam': rng.normal(size=(npix, 3)) * 1.5 + np.array([0.0, 0.0, 3.0]),
         'pulse_time': float(rng.uniform(0.0, 100.0)),
+        # geometry unit / dtype are dimensions too (vectors are always float64 in scipp)
+        'len_unit': str(rng.choice(['m', 'mm', 'angstrom'], p=[0.5, 0.3, 0.2])),
+        'geo_dtype': str(rng.choice(['float64', 'float32'], p=[0.65, 0.35])),
+        'angle_unit': str(rng.choice(['rad', 'deg'], p=[0.7, 0.3])),
     }
     return ev, geo
 
@@ -631,7 +744,7 @@ def build_binned(case, ecoords):
     return sc.DataArray(sc.bins(begin=begin, end=end, dim='event', data=table))
 
 
-def kernel_geometry(case, geo, tof_unit, index=None):
+def kernel_geometry(case, geo, tof_unit, index=None, scaled_geometry=True):
     """dense operands of the kernels: per pixel on 'spectrum' (scalar for the 1-d tof grid) or gathered per event"""
     import numpy as np
     import scipp as sc
@@ -647,17 +760,23 @@ def kernel_geometry(case, geo, tof_unit, index=None):
             return sc.vector(value=vals[0], unit=unit) if vec else sc.scalar(float(vals[0]), unit=unit)
         return sc.vectors(dims=['spectrum'], values=vals, unit=unit) if vec else sc.array(dims=['spectrum'], values=vals, unit=unit)
 
+    lu, gd = geo.get('len_unit', 'm'), geo.get('geo_dtype', 'float64')
+    ls = {'m': 1.0, 'mm': 1e3, 'angstrom': 1e10}[lu]
+    au = geo.get('angle_unit', 'rad')
+    ascale = 1.0 if au == 'rad' else 180.0 / np.pi
+    if not scaled_geometry:
+        lu, ls, gd, au, ascale = 'm', 1.0, 'float64', 'rad', 1.0
     return {
-        'Ltotal': pp(case['Ltotal'], 'm'), 'two_theta': pp(case['two_theta'], 'rad'),
-        'L1': sc.scalar(case['L1'], unit='m'), 'L2': pp(case['L2'], 'm'),
+        'Ltotal': pp(case['Ltotal'] * ls, lu).astype(gd), 'two_theta': pp(case['two_theta'] * ascale, au).astype(gd),
+        'L1': sc.scalar(case['L1'] * ls, unit=lu).astype(gd), 'L2': pp(case['L2'] * ls, lu).astype(gd),
         'incident_energy': sc.scalar(case['incident_energy'], unit='meV'), 'final_energy': pp(case['final_energy'], 'meV'),
-        'incident_beam': sc.vector(value=geo['incident_beam'], unit='m'),
-        'scattered_beam': pp(geo['scattered_beam'], 'm', vec=True),
+        'incident_beam': sc.vector(value=geo['incident_beam'] * ls, unit=lu),
+        'scattered_beam': pp(geo['scattered_beam'] * ls, lu, vec=True),
         'gravity': sc.vector(value=geo['gravity'], unit='m/s^2'),
         'pulse_time': sc.scalar(geo['pulse_time'], unit=tof_unit),
-        'position': pp(geo['scattered_beam'] + geo['sample_position'], 'm', vec=True),
-        'source_position': sc.vector(value=geo['source_position'], unit='m'),
-        'sample_position': sc.vector(value=geo['sample_position'], unit='m'),
+        'position': pp((geo['scattered_beam'] + geo['sample_position']) * ls, lu, vec=True),
+        'source_position': sc.vector(value=geo['source_position'] * ls, unit=lu),
+        'sample_position': sc.vector(value=geo['sample_position'] * ls, unit=lu),
     }
 
 
@@ -800,6 +919,30 @@ def run_kernel_case(case, layout_line):
             if mres is None or (got[0], got[1], got[3]) != canon_dense(mres[key]) or got[2] != [int(x) for x in sizes_f]:
                 rec['dis'].append((f'{name} output {key!r}: binned result vs dense kernel on the model-predicted (event, geometry) pairs',
                                    got[:3], None if mres is None else canon_dense(mres[key])[:2]))
+        # the documented formula in exact arithmetic on the event values (elastic kernels of the C01 table)
+        kshort = name.split('.', 1)[1]
+        from .. import tofkernels as tk
+        if name.startswith('tof.') and kshort in tk.KERNELS and '' in res and res[''].bins is not None and len(order):
+            K = tk.KERNELS[kshort]
+            npx = case['npix']
+            ops = {}
+            for a, _kind in K.args:
+                if a in ev:
+                    ops[a] = (ev[a][0][order], sc.Unit(ev[a][1]))
+                else:
+                    gvals = np.asarray(G[a].values)
+                    ops[a] = (np.broadcast_to(gvals, (npx,))[own_pix], G[a].unit)
+            cdata = res[''].bins.constituents
+            rb, re_ = np.asarray(cdata['begin'].values).ravel(), np.asarray(cdata['end'].values).ravel()
+            rv = np.asarray(cdata['data'].values)
+            flat = np.concatenate([rv[int(rb[i]):int(re_[i])] for i in range(nb)]) if nb else rv[:0]
+            if len(flat) == len(order):
+                ferr, fk_, ftol, fnote = formula_error(kshort, ops, flat, str(flat.dtype), cdata['data'].unit)
+                if not ferr <= ftol:
+                    rec['viol'].append((f'C06:event-value-differs-from-formula:{name}',
+                                        f'event {fk_}: operands ' + ', '.join(f'{a}={v[fk_]!r} {u}' for a, (v, u) in ops.items())
+                                        + f' -> {flat[fk_]!r}: relative error {ferr:.3e} against the documented formula in exact '
+                                        f'arithmetic (tolerance {ftol:g} for a {flat.dtype} result) {fnote}'))
         # second call on the same input must give the same answer
         res2, err2 = call_kernel(f, mk(E, G))
         second = {k: flat_binned(v, nb) for k, v in (res2 or {}).items() if v.bins is not None}
@@ -931,7 +1074,7 @@ def run_chunk(args):
 def summary(case):
     return {k: (case[k] if not hasattr(case[k], 'tolist') else case[k].tolist()) for k in
             ('seed', 'idx', 'grid', 'npix', 'ntof', 'style', 'storage', 'ev_dtype', 'w_dtype', 'variances', 'edges',
-             'geom_kind', 'container', 'slice', 'transposed')} | {'sizes': case['sizes'].tolist()[:40], 'events': int(case['sizes'].sum())}
+             'geom_kind', 'container', 'slice', 'transposed', 'tof_unit', 'edges_unit', 'len_unit', 'geo_dtype')} | {'sizes': case['sizes'].tolist()[:40], 'events': int(case['sizes'].sum())}
 
 
 GEOM_NAMES = {
@@ -1010,6 +1153,11 @@ def _process(ctx, results, report_dis=True):
             if summ['transposed']:
                 ctx.count('grid:transposed [tof, spectrum]')
             ctx.count(f'event-dtype:{summ["ev_dtype"]}')
+            if idx < KERNEL_BASE:
+                ctx.count(f'event-tof:{summ["tof_unit"]}/{summ["ev_dtype"]}')
+                ctx.count(f'geometry:{summ["len_unit"]}/{summ["geo_dtype"]}')
+            elif idx < GRAPH_BASE:
+                ctx.count('kernel-operands:' + ' '.join(x for x in str(r['mode']).split(' ') if x.startswith(('tof', 'wavelength'))))
             ctx.count('events:' + ('0' if summ['events'] == 0 else '<10' if summ['events'] < 10 else '<100' if summ['events'] < 100 else '>=100'))
             if report_dis:
                 for d in r['dis']:
